@@ -127,7 +127,9 @@ func (s *Scheduler) runStage(stage *Stage) error {
 		return s.Schedule(stage.Pipeline)
 	}
 
-	t := stage.Task
+	// stage overrides are applied to a copy: the task may be used by other stages, pipelines or directly
+	c := *stage.Task
+	t := &c
 	if stage.Env != nil {
 		if t.Env == nil {
 			t.Env = stage.Env
@@ -144,7 +146,13 @@ func (s *Scheduler) runStage(stage *Stage) error {
 		}
 	}
 
-	return s.taskRunner.Run(stage.Task)
+	err := s.taskRunner.Run(t)
+
+	// results go back to the stage's task, its own settings stay as they were
+	c.Env, c.Variables = stage.Task.Env, stage.Task.Variables
+	*stage.Task = c
+
+	return err
 }
 
 func checkStatus(p *ExecutionGraph, stage *Stage) (ready bool) {
